@@ -1,5 +1,6 @@
 SPECIFICATION Spec
 CONSTANTS
+  Answer <- TableAnswer
   MaxLimit = 24
   Costs <- CostSet
   ProgIds = {1, 2, 3, 4, 5, 6, 7, 8, 9, 10, 11, 12}
